@@ -12,6 +12,78 @@ pub mod sim;
 pub mod exec;
 pub mod wkcnet;
 
+/// Hang watchdog: a case on which the REAL code never returns (a loop without an await, a spin on a state
+/// that no longer changes) must end the run with a report instead of blocking the check for ever. Every
+/// completed case / recorded feature is progress; if there is none for `VERIF_HANG_S` seconds (default 150
+/// quick, 900 thorough) the process writes `<outdir>/<bin>.hang.json` (number of completed cases, the last
+/// completed case line, the case announced with `about_to_run` if any) and exits with status 86.
+pub mod progress {
+    use std::sync::Mutex;
+    use std::sync::atomic::{AtomicU64, Ordering};
+    pub static TICKS: AtomicU64 = AtomicU64::new(0);
+    pub static COMPLETED: AtomicU64 = AtomicU64::new(0);
+    pub static LAST: Mutex<String> = Mutex::new(String::new());
+    pub static CURRENT: Mutex<String> = Mutex::new(String::new());
+    pub fn tick() {
+        TICKS.fetch_add(1, Ordering::Relaxed);
+    }
+    pub fn completed(line: &str) {
+        TICKS.fetch_add(1, Ordering::Relaxed);
+        COMPLETED.fetch_add(1, Ordering::Relaxed);
+        if let Ok(mut l) = LAST.try_lock() {
+            l.clear();
+            l.push_str(&line[..line.len().min(4000)]);
+        }
+        if let Ok(mut c) = CURRENT.try_lock() {
+            c.clear();
+        }
+    }
+    /// Optional: announce the case that is about to run (so a hang can name it exactly).
+    pub fn about_to_run(line: &str) {
+        TICKS.fetch_add(1, Ordering::Relaxed);
+        if let Ok(mut c) = CURRENT.try_lock() {
+            c.clear();
+            c.push_str(&line[..line.len().min(4000)]);
+        }
+    }
+    pub fn start_watchdog(outdir: String, tier: &str) {
+        let bin = std::env::args().next().map(|a| a.rsplit('/').next().unwrap_or("").to_string()).unwrap_or_default();
+        let limit: u64 = std::env::var("VERIF_HANG_S").ok().and_then(|s| s.parse().ok()).unwrap_or(if tier == "thorough" { 900 } else { 150 });
+        std::thread::spawn(move || {
+            let mut last = TICKS.load(Ordering::Relaxed);
+            let mut idle = 0u64;
+            loop {
+                std::thread::sleep(std::time::Duration::from_secs(5));
+                let now = TICKS.load(Ordering::Relaxed);
+                if now != last {
+                    last = now;
+                    idle = 0;
+                    continue;
+                }
+                idle += 5;
+                if idle >= limit {
+                    let esc = |s: &str| s.replace('\\', "\\\\").replace('"', "\\\"");
+                    let lastc = LAST.lock().map(|l| l.clone()).unwrap_or_default();
+                    let cur = CURRENT.lock().map(|l| l.clone()).unwrap_or_default();
+                    let _ = std::fs::create_dir_all(&outdir);
+                    let _ = std::fs::write(
+                        format!("{outdir}/{bin}.hang.json"),
+                        format!(
+                            "{{\"bin\":\"{}\",\"completed\":{},\"idle_s\":{},\"last_completed_case\":\"{}\",\"case\":\"{}\"}}",
+                            esc(&bin),
+                            COMPLETED.load(Ordering::Relaxed),
+                            idle,
+                            esc(&lastc),
+                            esc(&cur)
+                        ),
+                    );
+                    std::process::exit(86);
+                }
+            }
+        });
+    }
+}
+
 /// Standard entry point of a property binary: `<bin> <quick|thorough> <seed> <outdir> [--replay FILE]`.
 pub struct Args {
     pub tier: String,
@@ -29,6 +101,7 @@ pub fn parse_args() -> Args {
     let replay = a.iter().position(|x| x == "--replay").and_then(|i| a.get(i + 1).cloned());
     // panics inside cases are caught per case; keep the default hook quiet
     std::panic::set_hook(Box::new(|_| {}));
+    progress::start_watchdog(a[3].clone(), &a[1]);
     Args { tier: a[1].clone(), seed: a[2].parse().expect("seed"), out: a[3].clone(), replay }
 }
 
